@@ -8,19 +8,23 @@ parameters), tied to the tree by the replay correspondence of `checks/c46.py`: t
 with the three oracles answering from the log of a real run, must reproduce the real run bit for bit (every
 evaluation point, the trace, the regulariser, the status).
 
-All theorems are over ℝ — for *every* residual function, `Norm` object, start point, positive scaling `D` and
-every box-QP oracle that honours its contract:
-  * feasibility  `dlower ≤ dx ≤ dupper`                     (bounds theorems),
-  * descent      `g·dx ≤ 0`                                  (monotonicity theorems; `least_squares` never
-                                                              checks it — see `accept_needs_descent`).
+The theorems are over ℝ — for *every* residual function, `Norm` object, start point, scaling `D` and every
+box-QP oracle — except `clipped_candidate_in_box_any_carrier`, which is over an arbitrary carrier.
+  * Bounds theorems: since the fix "least_squares clips the candidate point to the bounds" the candidate is
+    `clip(x + D·dx)`, so they need nothing from the box-QP answer but its length (no `D > 0`, no feasibility
+    `dlower ≤ dx ≤ dupper`).  `candidate_in_bounds` / `candidate_in_box` (exact arithmetic: the *unclipped*
+    candidate is already inside) are kept: they say the clip is the identity over ℝ.
+  * `clipped_candidate_in_box_any_carrier`: on ANY carrier whose order is reflexive and total (`ClipOrder`: the
+    reals, IEEE doubles without NaN) the clipped candidate is inside the box with no hypothesis on how
+    `x + D·dx` was computed — this is what makes the property hold in floating point, where the unclipped
+    candidate did leave the box by rounding (former finding `c46:candidate-outside-bounds-by-rounding`, fixed;
+    the oracle key and the two reproduction inputs stay in `checks/c46.py` as regressions).
+  * Monotonicity theorems: the box-QP answers must be descent directions `g·dx ≤ 0` (`least_squares` never
+    checks it — see `accept_needs_descent`).
 "Bounds wider than the finite-difference step" is made precise as: every side of the box is at least
 **twice** the step `eps·max(1,|t|)` taken at any point `t` of that side (`fd_width_of_corners` gives the
 checkable corner form); `fd_probe_escapes_narrow_box` shows that a box wider than one step but narrower than
 two does let a probe point escape, so the factor 2 is what the code needs.
-
-Reals, not doubles: in floating point `x + D*dx` is *not* guaranteed to stay in the box (the code does not
-clip the candidate) — `checks/c46.py` searches for and reports such inputs under the key
-`c46:candidate-outside-bounds-by-rounding`; the `Float` witness is computed by the driver (`witness` op).
 -/
 namespace MjProof.C46
 open MjProof MjProof.LeastSquares
@@ -82,6 +86,27 @@ theorem candidate_in_box (lo hi x D dx : List ℝ) (hlen : lo.length = hi.length
     (hf : Feasible (dBound lo x D) (dBound hi x D) dx) : InBox lo hi (candidate x D dx) :=
   candidate_inBox lo hi x D dx hlen hDl hD hx hf
 
+/-- **No exact-arithmetic hypothesis.**  On any carrier `α` (any `MjNum α`, e.g. `Float`) whose order is reflexive
+    and total in the sense of `ClipOrder`, the candidate as `least_squares` now computes it —
+    `clip(x + D*dx, lo, hi)` — lies in the box for *every* `x`, `D`, `dx` of the right length: nothing is assumed
+    about `+`, `*`, `/`, about `D > 0` or about `dx` being feasible. -/
+theorem clipped_candidate_in_box_any_carrier {α : Type} [MjNum α] (O : ClipOrder α) (lo hi x D dx : List α)
+    (hlen : lo.length = hi.length) (hx : x.length = lo.length) (hD : D.length = lo.length)
+    (hdx : dx.length = lo.length)
+    (hle : ∀ i (hl : i < lo.length) (hh : i < hi.length), lo[i] ≤ hi[i]) :
+    InBoxG lo hi (clipStart (some (lo, hi)) (candidate x D dx)) :=
+  clipStart_inBoxG O lo hi _ hlen (candidate_length x D dx _ hx hD hdx) hle
+
+/-- the reals satisfy the order laws (so do IEEE doubles on non-NaN values) -/
+theorem clip_order_real : ClipOrder ℝ := clipOrder_real
+
+/-- Over ℝ the clip of the candidate is the identity when the box-QP answer is feasible and `D > 0`. -/
+theorem candidate_clip_identity (lo hi x D dx : List ℝ) (hlen : lo.length = hi.length) (hDl : D.length = lo.length)
+    (hD : ∀ i (h : i < D.length), 0 < D[i]) (hx : x.length = lo.length)
+    (hf : Feasible (dBound lo x D) (dBound hi x D) dx) :
+    clipStart (some (lo, hi)) (candidate x D dx) = candidate x D dx :=
+  clipStart_of_inBox lo hi _ hlen (candidate_inBox lo hi x D dx hlen hDl hD hx hf)
+
 /-! ### the accept rule -/
 
 /-- The accept rule as coded (`armijo = reduction + c1·(grad·dx)`, accepted iff not `armijo < 0`): every
@@ -102,7 +127,8 @@ theorem accept_needs_descent :
 /-! ### the whole run -/
 
 /-- Every point at which `least_squares` evaluates the residual (the clipped start, all finite-difference
-    probes, all candidates — accepted or rejected) lies in the box. -/
+    probes, all clipped candidates — accepted or rejected) lies in the box; nothing is assumed about the box-QP
+    answers except their length. -/
 theorem residual_calls_in_bounds {Q : Problem ℝ} {lo hi : List ℝ} (B : BoxProblem Q lo hi) (x0 : List ℝ)
     (hx0 : x0.length = lo.length) : ∀ p ∈ (leastSquares Q x0).calls, InBox lo hi p :=
   (leastSquares_bounds B x0 hx0).2
@@ -157,7 +183,6 @@ theorem exQ_box : BoxProblem exQ [0] [1] where
   bounds := rfl
   hlen := rfl
   hDl := rfl
-  hD := by intro i h; simp only [exQ, List.length_singleton, Nat.lt_one_iff] at h; subst h; simp [exQ]
   hle := by intro i hl _; simp only [List.length_singleton, Nat.lt_one_iff] at hl; subst hl; simp
   heps := by simp [exQ]
   hw := by
@@ -166,18 +191,14 @@ theorem exQ_box : BoxProblem exQ [0] [1] where
     simp only [List.getElem_cons_zero] at h1 h2 ⊢
     rw [max_eq_left (by rw [abs_of_nonneg h1]; exact h2)]
     simp [exQ]; norm_num
-  qp := by
+  qp_len := by
     intro w H g dl du dx h
     simp only [exQ] at h
     match dl, du, h with
     | [a], [b], h =>
       simp only at h
       split_ifs at h with hc
-      · simp only [Option.some.injEq, QPResult.ok.injEq] at h; subst h
-        refine ⟨rfl, ?_⟩
-        intro i h1 _ _
-        simp only [List.length_singleton, Nat.lt_one_iff] at h1; subst h1
-        simpa using hc
+      · simp only [Option.some.injEq, QPResult.ok.injEq] at h; subst h; rfl
       · simp at h
     | [], _, h => simp at h
     | _ :: _ :: _, _, h => simp at h
@@ -216,7 +237,8 @@ end example_problem
     `scipy.optimize.lsq_linear` by the check; (ii) with the default `gtol = 1e-8` the conclusion is only
     approximate; (iii) the linearisation hypothesis is assumed, not derived from a matrix `A`. -/
 theorem linear_reaches_bounded_min_partial {Q : Problem ℝ} {lo hi : List ℝ} (B : BoxProblem Q lo hi)
-    (x0 : List ℝ) (hx0 : x0.length = lo.length) (f : List ℝ → ℝ) (hgtol : Q.P.gtol ≤ 0)
+    (x0 : List ℝ) (hx0 : x0.length = lo.length) (hD : ∀ i (h : i < Q.D.length), 0 < Q.D[i])
+    (f : List ℝ → ℝ) (hgtol : Q.P.gtol ≤ 0)
     (hstat : (leastSquares Q x0).status = .gTol)
     (hconv : ∀ x r grad, InBox lo hi x → GradAt Q x r grad →
       grad.length = lo.length ∧ ∀ z, InBox lo hi z →
@@ -226,6 +248,6 @@ theorem linear_reaches_bounded_min_partial {Q : Problem ℝ} {lo hi : List ℝ} 
   have hx := result_in_bounds B x0 hx0
   obtain ⟨hgl, hc⟩ := hconv _ _ grad hx hga
   rw [B.bounds] at hstop
-  exact kkt_global_min lo hi _ grad Q.D f B.hlen hgl B.hDl B.hD hx (le_trans hstop hgtol) hc
+  exact kkt_global_min lo hi _ grad Q.D f B.hlen hgl B.hDl hD hx (le_trans hstop hgtol) hc
 
 end MjProof.C46
